@@ -80,12 +80,17 @@ impl TemplateProgram {
         arguments
             .is_consistent(self.simfony.parameters())
             .map_err(|error| error.to_string())?;
+        let simplicity = self
+            .simfony
+            .compile(arguments, include_debug_symbols)
+            .with_file(Arc::clone(&self.file))?;
+        // Finalize all types now, while the program is exclusively owned.
+        // `CompiledProgram` is `Sync + Clone` and all clones share one type inference context.
+        // Finalizing lazily inside `commit(&self)` lets concurrent callers race on that context.
+        named::to_commit_node(&simplicity).map_err(|error| error.to_string())?;
         Ok(CompiledProgram {
             debug_symbols: self.simfony.debug_symbols(self.file.as_ref()),
-            simplicity: self
-                .simfony
-                .compile(arguments, include_debug_symbols)
-                .with_file(Arc::clone(&self.file))?,
+            simplicity,
             witness_types: self.simfony.witness_types().shallow_clone(),
         })
     }
@@ -102,8 +107,11 @@ pub struct CompiledProgram {
 impl Default for CompiledProgram {
     fn default() -> Self {
         use simplicity::node::CoreConstructible;
+        let simplicity = ProgNode::unit(&simplicity::types::Context::new());
+        // Finalize all types while the program is exclusively owned (see `instantiate`).
+        named::to_commit_node(&simplicity).expect("unit program has type 1 -> 1");
         Self {
-            simplicity: ProgNode::unit(&simplicity::types::Context::new()),
+            simplicity,
             witness_types: WitnessTypes::default(),
             debug_symbols: DebugSymbols::default(),
         }
